@@ -157,7 +157,11 @@ func checkRead(c *vm.Ctx, r *vm.Rand, rc *rcase) {
 	offs := faultOffsets(r, bConsumed)
 	for _, k := range offs {
 		for _, e := range []error{io.EOF, errSentinel} {
-			for _, plan := range [][]int{{1 << 30}, {1}} {
+			faultPlans := [][]int{{1 << 30}, {1}}
+			if len(rc.input) > 20000 {
+				faultPlans = [][]int{{1 << 30}, {4096}, {65536, 1000}} // one byte at a time would take minutes here
+			}
+			for _, plan := range faultPlans {
 				src := &inject.ChunkReader{B: in[:k], Plan: plan, Err: e}
 				var err error
 				ex := map[string]any{"stream_fails_after_bytes": k, "failure": e.Error(), "read_plan": plan}
@@ -479,7 +483,57 @@ func genCases(c *vm.Ctx, r *vm.Rand, g *nbtgen.G) ([]*rcase, []*wcase) {
 	return rcs, wcs
 }
 
+// bigCases: items whose payload is larger than the first step of the readers that grow their buffers as data
+// arrives (64 KiB): the later steps must treat short reads and early ends like the first one does.
+func bigCases(r *vm.Rand) []*rcase {
+	var rcs []*rcase
+	for _, n := range []int{65537, 70000, 140001} {
+		payload := r.Bytes(n)
+		type holder struct {
+			A int32  `nbt:"a"`
+			D []byte `nbt:"d"`
+			S []int8 `nbt:"s"`
+			Z string `nbt:"z"`
+		}
+		tree := &refnbt.Value{Tag: refnbt.Compound, Comp: []refnbt.Entry{{Name: "a", V: refnbt.In(7)}, {Name: "d", V: &refnbt.Value{Tag: refnbt.ByteArray, Bytes: payload}},
+			{Name: "s", V: &refnbt.Value{Tag: refnbt.ByteArray, Bytes: payload[:n/2+1]}}, {Name: "z", V: refnbt.St("after")}}}
+		doc := refnbt.Encode(tree, "", true)
+		sum := func(b []byte) string { return fmt.Sprintf("%d bytes, fnv %016x", len(b), vm.Hash64(b)) }
+		rcs = append(rcs,
+			&rcase{op: nbtDecodeOp(fmt.Sprintf("nbt.Decode(struct with %d-byte arrays)", n), true, func() any { return new(holder) }, func(v any) string {
+				h := v.(*holder)
+				s8 := make([]byte, len(h.S))
+				for i, x := range h.S {
+					s8[i] = byte(x)
+				}
+				return fmt.Sprint(h.A, sum(h.D), sum(s8), h.Z)
+			}), input: doc},
+			&rcase{op: nbtDecodeOp(fmt.Sprintf("nbt.Decode(any, %d-byte arrays)", n), true, func() any { return new(any) }, func(v any) string {
+				m, _ := (*(v.(*any))).(map[string]any)
+				d, _ := m["d"].([]byte)
+				return fmt.Sprint(m["a"], sum(d), m["z"])
+			}), input: doc},
+			&rcase{op: rop{name: fmt.Sprintf("ByteArray(%d)", n), run: func(rd io.Reader) (string, int64, error) {
+				var v pk.ByteArray
+				k, err := v.ReadFrom(rd)
+				return sum(v), k, err
+			}}, input: enc(pk.ByteArray(payload))},
+			&rcase{op: rop{name: fmt.Sprintf("String(%d)", n), run: func(rd io.Reader) (string, int64, error) {
+				var v pk.String
+				k, err := v.ReadFrom(rd)
+				return sum([]byte(v)), k, err
+			}}, input: enc(pk.String(strings.Repeat("s", n)))},
+		)
+	}
+	return rcs
+}
+
 func run(c *vm.Ctx) {
+	if c.Shard == 1%c.NShards {
+		for _, rc := range bigCases(c.Rand("big")) {
+			checkRead(c, c.Rand("big-plans"), rc)
+		}
+	}
 	if c.Shard == 0 {
 		br := c.Rand("botconn")
 		for i := 0; i < c.Scale(40, 400); i++ {
